@@ -24,7 +24,8 @@ import (
 //	9 R7   S:[REQ s {}, EVENT x]  P:[EVENT e1]   (a connection receives its own event)
 //	10 R8  S:[REQ s {}, CLOSE z, COUNT c]        P:[EVENT e1]   (CLOSE of an id that is not open)
 //	11 R9  S:[REQ a {kinds:[1]}, REQ b {kinds:[7]}, CLOSE a, CLOSE a, COUNT c]  P:[EVENT e1(k1), EVENT e2(k7)]
-const C07Scenarios = 12
+//	12 R10 S:[REQ s {}], S's reader stops after k reads; P1:[EVENT a], P2:[EVENT b] concurrently; then S drains
+const C07Scenarios = 13
 
 type pubEvent struct {
 	ev       *mocrelay.Event
@@ -121,6 +122,13 @@ func RouterScenario(h *vsched.H) {
 		go S1.Write(ReqMsg("s", k1...))
 		go S2.Write(ReqMsg("s", k7...))
 		go P.Write(EventMsg(e1), EventMsg(e2))
+	case 12:
+		S, P1, P2 := newConn("S"), newConn("P1"), newConn("P2")
+		subscribers, publishers = []*Conn{S}, []*Conn{P1, P2}
+		go S.Write(ReqMsg("s", all...))
+		go P1.Write(EventMsg(Ev('a', '1', 1, 10)), EventMsg(Ev('b', '1', 1, 11)))
+		go P2.Write(EventMsg(Ev('c', '2', 1, 12)))
+		stalled = true
 	case 5:
 		S, P1, P2 := newConn("S"), newConn("P1"), newConn("P2")
 		subscribers, publishers = []*Conn{S}, []*Conn{P1, P2}
